@@ -79,7 +79,7 @@ class Obligations:
                 s.add(z3.BoolVal(False))
         return s
 
-    def prove(self, name, assumptions, goal, cex=None, timeout_ms=None, kind=None):
+    def prove(self, name, assumptions, goal, cex=None, timeout_ms=None, kind=None, direct=False):
         """goal: z3 Bool or Python bool.  Returns 'unsat' | 'sat' | 'unknown'."""
         self.obligations += 1
         kind = kind or name.split("[")[0]
@@ -97,12 +97,33 @@ class Obligations:
         s = None
         budget = timeout_ms or self.default_timeout_ms
         zas = [a for a in assumptions if zx.is_z(a)]
-        if any(has_nonlinear(x) for x in zas + [neg]):
+        if not direct and any(has_nonlinear(x) for x in zas + [neg]):
             r, s = self._prove_nonlinear(assumptions, neg, budget)
         if r is None:
             s = self._solver(assumptions, budget)
             s.add(neg)
             r = str(s.check())
+            if r == "unknown":
+                # nonlinear queries are erratic: retry with nlsat and with a different seed before giving up
+                for mk in (lambda: z3.Tactic("qfnra-nlsat").solver(), lambda: z3.SolverFor("QF_NRA"), lambda: z3.Solver()):
+                    try:
+                        s2 = mk()
+                        s2.set("timeout", budget)
+                        try:
+                            s2.set("random_seed", 7)
+                        except Exception:
+                            pass
+                        for a in assumptions:
+                            if zx.is_z(a):
+                                s2.add(a)
+                        s2.add(neg)
+                        r2 = str(s2.check())
+                    except Exception:
+                        continue
+                    self.extra["retries"] = self.extra.get("retries", 0) + 1
+                    if r2 in ("sat", "unsat"):
+                        r, s = r2, s2
+                        break
         dt = time.time() - t0
         self.solver_s += dt
         if r == "unsat":
